@@ -114,3 +114,18 @@ Proof. reflexivity. Qed.
 Lemma alias_default : forall k,
   declared_as_alias false false k = match k with KStruct | KEnum => false | _ => true end.
 Proof. intros k. destruct k; reflexivity. Qed.
+
+(** * Sized integer formats: the Go type of the table holds every value the format stands for. *)
+From Coq Require Import ZArith Lia.
+Theorem sized_formats_hold_their_range : forall f r v,
+  In f sized_formats -> int_range f = Some r -> in_range r v = true -> decodes go_type f v = true.
+Proof.
+  intros f r v Hin Hr Hv. unfold sized_formats in Hin. simpl in Hin.
+  repeat (destruct Hin as [<-|Hin]; [vm_compute in Hr; inversion Hr; subst r; exact Hv|]). destruct Hin.
+Qed.
+
+Theorem uint64_as_int_refuted :
+  in_range (0, 18446744073709551615)%Z 9223372036854775808%Z = true
+  /\ decodes go_type "uint64" 9223372036854775808%Z = true
+  /\ decodes go_type_without_uint64 "uint64" 9223372036854775808%Z = false.
+Proof. vm_compute. repeat split; reflexivity. Qed.
